@@ -65,6 +65,10 @@ func (c *resolver) addToken(name, id string, t ast.RawType, space ast.LexemeAttr
 	if !ident.IsValid(id) {
 		c.Errorf(n, "%v cannot be turned into a valid identifier (got %q)", name, id)
 	}
+	if id == "UNAVAILABLE" {
+		// All token templates declare this member themselves (the "no token" value).
+		c.Errorf(n, "%v gets the ID %v, which is reserved in generated code", name, id)
+	}
 
 	sym := grammar.Symbol{
 		Index:  len(c.Syms),
